@@ -139,7 +139,30 @@ func gposStr(S gpos, s string) gpos {
 
 // WriterEmpty: nothing written, nothing deferred (exported for the contracts of packages compiler and debug).
 func WriterEmpty(cw *CodeWriter) bool {
-	return len(cw.pendings) == 0 && eq(cw.Builder, strings.Builder{})
+	return len(cw.pendings) == 0 && eq(cw.Builder, strings.Builder{}) && cw.lastByte == 0
+}
+
+// fuse: token-fusion automaton over the write history. A write that begins with '+' or '-' directly after a byte equal
+// to it would fuse two tokens into another one (`--`, `++`) -- inside one write the characters belong to one token.
+type fuseState struct {
+	last byte
+	bad  bool
+}
+
+func fuseInit() fuseState { return fuseState{} }
+func fuseByte(S fuseState, c byte) fuseState {
+	return fuseState{last: c, bad: S.bad || (S.last == c && (c == '+' || c == '-'))}
+}
+func fuseStr(S fuseState, s string) fuseState {
+	if len(s) == 0 {
+		return S
+	}
+	return fuseState{last: s[len(s)-1], bad: S.bad || (S.last == s[0] && (s[0] == '+' || s[0] == '-'))}
+}
+
+// NoFusion: nothing written so far fuses adjacent sign tokens, and the writer knows the last byte it wrote.
+func NoFusion(cw *CodeWriter) bool {
+	return !foldH(fuseByte, fuseStr, fuseInit(), built(cw.Builder)).bad && cw.lastByte == foldH(fuseByte, fuseStr, fuseInit(), built(cw.Builder)).last
 }
 
 // J: the source mapper's cursor is the generated position of everything written so far.
@@ -157,11 +180,12 @@ func cwInv(cw *CodeWriter) bool {
 // What every writer method and every printer may touch: the buffer, the deferred layout, the indent level and the
 // mapper's state. Options (PrettyPrint, IndentString, WriteSemicolons, the Mapper pointer) and the tree are not in it.
 //@ group cwFrame
-//@   requires [cw] cw != nil && cwInv(cw) && J(cw)
-//@   modifies cw.Builder, cw.pendings, cw.IndentLevel
+//@   requires [cw] cw != nil && cwInv(cw) && J(cw) && NoFusion(cw)
+//@   modifies cw.Builder, cw.pendings, cw.IndentLevel, cw.lastByte
 //@   modifies cw.Mapper.generatedLine, cw.Mapper.generatedColumn, cw.Mapper.mappings, cw.Mapper.names, cw.Mapper.nameIndex[*]
 //@   ensures [cwinv@C06,C08] cwInv(cw)
 //@   ensures [J@C08] J(cw)
+//@   ensures [no-fusion@C03,C01] NoFusion(cw)
 
 // Layout-only methods write nothing and record no mapping.
 //@ group layoutOnly
@@ -173,8 +197,20 @@ func cwInv(cw *CodeWriter) bool {
 //@ func (cw *CodeWriter) emit
 //@   props C08 C06 C15
 //@   use cwFrame
-//@   ensures [mechanism@C08] fullSeq(evOpt(cw.Mapper != nil, evCall("(*SourceMapper).AdvanceString"))) && implies(cw.Mapper != nil, callArg[string]("(*SourceMapper).AdvanceString", 0, 1) == s)
+//@   ensures [mechanism@C08] fullSeq(evOpt(len(s) > 0, evCall("(*CodeWriter).separateSigns")), evOpt(len(s) > 0 && cw.Mapper != nil, evCall("(*SourceMapper).AdvanceString"))) && implies(len(s) > 0 && cw.Mapper != nil, callArg[string]("(*SourceMapper).AdvanceString", 0, 1) == s)
 //@   ensures [pendings] eq(cw.pendings, old(cw.pendings)) && cw.IndentLevel == old(cw.IndentLevel)
+//@   ensures [no-mapping@C08] cw.Mapper == nil || sourcemap.NumMappings(cw.Mapper) == old(sourcemap.NumMappings(cw.Mapper))
+
+// separateSigns writes a space exactly when the next token would fuse with the last byte written.
+//@ func (cw *CodeWriter) separateSigns
+//@   props C03 C01 C08 C06
+//@   requires [cw] cw != nil && cwInv(cw) && J(cw) && NoFusion(cw)
+//@   modifies cw.Builder, cw.lastByte, cw.Mapper.generatedColumn
+//@   ensures [cwinv] cwInv(cw)
+//@   ensures [J@C08] J(cw)
+//@   ensures [no-fusion@C03,C01] NoFusion(cw)
+//@   ensures [separated@C03,C01] !((next == '+' || next == '-') && cw.lastByte == next)
+//@   ensures [only-then@C06] implies(!((next == '+' || next == '-') && old(cw.lastByte) == next), eq(cw.Builder, old(cw.Builder)) && cw.lastByte == old(cw.lastByte))
 //@   ensures [no-mapping@C08] cw.Mapper == nil || sourcemap.NumMappings(cw.Mapper) == old(sourcemap.NumMappings(cw.Mapper))
 
 //@ func (cw *CodeWriter) clearPending
@@ -192,7 +228,7 @@ func cwInv(cw *CodeWriter) bool {
 //@ func (cw *CodeWriter) writeIndent
 //@   props C06 C08 C15
 //@   use cwFrame
-//@   loop 1 invariant [frame] cwInv(cw) && J(cw) && eq(cw.pendings, old(cw.pendings)) && cw.IndentLevel == old(cw.IndentLevel) && (cw.Mapper == nil || sourcemap.NumMappings(cw.Mapper) == old(sourcemap.NumMappings(cw.Mapper)))
+//@   loop 1 invariant [frame] cwInv(cw) && J(cw) && NoFusion(cw) && eq(cw.pendings, old(cw.pendings)) && cw.IndentLevel == old(cw.IndentLevel) && (cw.Mapper == nil || sourcemap.NumMappings(cw.Mapper) == old(sourcemap.NumMappings(cw.Mapper)))
 //@   ensures [pendings] eq(cw.pendings, old(cw.pendings)) && cw.IndentLevel == old(cw.IndentLevel)
 //@   ensures [no-mapping@C08] cw.Mapper == nil || sourcemap.NumMappings(cw.Mapper) == old(sourcemap.NumMappings(cw.Mapper))
 
@@ -204,7 +240,7 @@ func cwInv(cw *CodeWriter) bool {
 //@   loop 1 before [mechanism@C06] fullSeq()
 //@   loop 1 each [mechanism@C06] fullSeq(evOpt(ch == '\t', evCall("(*CodeWriter).writeIndent")), evOpt(ch != '\t', evCall("(*CodeWriter).emit")))
 //@   ensures [mechanism@C06] fullSeq(evCall("(*CodeWriter).clearPending"))
-//@   loop 1 invariant [frame] cwInv(cw) && J(cw) && cw.IndentLevel == old(cw.IndentLevel) && eq(cw.pendings, old(cw.pendings)) && (cw.Mapper == nil || sourcemap.NumMappings(cw.Mapper) == old(sourcemap.NumMappings(cw.Mapper))) && implies(!cw.PrettyPrint, eq(cw.Builder, old(cw.Builder)))
+//@   loop 1 invariant [frame] cwInv(cw) && J(cw) && NoFusion(cw) && cw.IndentLevel == old(cw.IndentLevel) && eq(cw.pendings, old(cw.pendings)) && (cw.Mapper == nil || sourcemap.NumMappings(cw.Mapper) == old(sourcemap.NumMappings(cw.Mapper))) && implies(!cw.PrettyPrint, eq(cw.Builder, old(cw.Builder)))
 //@   ensures [flushed] len(cw.pendings) == 0 && cw.IndentLevel == old(cw.IndentLevel)
 //@   ensures [compact.nothing@C06] implies(!cw.PrettyPrint, eq(cw.Builder, old(cw.Builder)))
 //@   ensures [no-mapping@C08] cw.Mapper == nil || sourcemap.NumMappings(cw.Mapper) == old(sourcemap.NumMappings(cw.Mapper))
@@ -222,7 +258,7 @@ func cwInv(cw *CodeWriter) bool {
 //@ func (cw *CodeWriter) WriteRune
 //@   props C06 C08 C15 C01
 //@   use cwFrame
-//@   ensures [mechanism@C06,C08] fullSeq(evCall("(*CodeWriter).flushPending"), evOpt(cw.Mapper != nil && r == '\n', evCall("(*SourceMapper).AdvanceLine")), evOpt(cw.Mapper != nil && r != '\n', evCall("(*SourceMapper).AdvanceColumn")))
+//@   ensures [mechanism@C06,C08] fullSeq(evCall("(*CodeWriter).flushPending"), evCall("(*CodeWriter).separateSigns"), evOpt(cw.Mapper != nil && r == '\n', evCall("(*SourceMapper).AdvanceLine")), evOpt(cw.Mapper != nil && r != '\n', evCall("(*SourceMapper).AdvanceColumn")))
 //@   ensures [column@C08] implies(cw.Mapper != nil && r != '\n', callArg[int]("(*SourceMapper).AdvanceColumn", 0, 1) == 1)
 //@   requires [ascii] 0 <= r && r < 128 && r != '\r'
 //@   ensures [flushed] len(cw.pendings) == 0 && cw.IndentLevel == old(cw.IndentLevel)
@@ -293,7 +329,7 @@ func cwInv(cw *CodeWriter) bool {
 //@ func (cw *CodeWriter) WriteLeadingComments
 //@   props C15 C06 C08
 //@   use cwFrame
-//@   loop 1 invariant [frame] cwInv(cw) && J(cw) && cw.IndentLevel == old(cw.IndentLevel) && cw.PrettyPrint && (cw.Mapper == nil || sourcemap.NumMappings(cw.Mapper) == old(sourcemap.NumMappings(cw.Mapper)))
+//@   loop 1 invariant [frame] cwInv(cw) && J(cw) && NoFusion(cw) && cw.IndentLevel == old(cw.IndentLevel) && cw.PrettyPrint && (cw.Mapper == nil || sourcemap.NumMappings(cw.Mapper) == old(sourcemap.NumMappings(cw.Mapper)))
 //@   ensures [compact.none@C15] implies(!cw.PrettyPrint, eq(cw.Builder, old(cw.Builder)) && len(cw.pendings) == 0)
 //@   ensures [empty.none@C15] implies(len(comments) == 0, eq(cw.Builder, old(cw.Builder)) && eq(cw.pendings, old(cw.pendings)))
 //@   ensures [fresh-line@C15] implies(cw.PrettyPrint && len(comments) > 0, len(cw.pendings) == 2 && cw.pendings[0] == '\n' && cw.pendings[1] == '\t')
@@ -330,7 +366,7 @@ func slotPrecedence(e Expression) int     { return 0 }
 //@   props C01 C03 C06 C08 C15 C14
 //@   use cwFrame writeTo
 //@   assumes [wf] forall(0, len(p.Statements), func(k int) bool { return !isNil(p.Statements[k]) })
-//@   loop 1 invariant [frame] cwInv(cw) && J(cw) && cw.IndentLevel == atEntry(cw.IndentLevel)
+//@   loop 1 invariant [frame] cwInv(cw) && J(cw) && NoFusion(cw) && cw.IndentLevel == atEntry(cw.IndentLevel)
 //@   loop 1 before [syntax] traceSeq()
 //@   loop 1 each [syntax] traceSeq(evNode(p.Statements[i]))
 //@   ensures [syntax] traceSeq()
@@ -357,7 +393,7 @@ func slotPrecedence(e Expression) int     { return 0 }
 //@   props C01 C03 C06 C08 C15 C14
 //@   use cwFrame writeTo
 //@   assumes [wf] fd.Name != nil && fd.Body != nil && forall(0, len(fd.Parameters), func(k int) bool { return fd.Parameters[k] != nil })
-//@   loop 1 invariant [frame] cwInv(cw) && J(cw) && cw.IndentLevel == atEntry(cw.IndentLevel)
+//@   loop 1 invariant [frame] cwInv(cw) && J(cw) && NoFusion(cw) && cw.IndentLevel == atEntry(cw.IndentLevel)
 //@   loop 1 before [syntax] traceSeq(evLC(fd.Token.LeadingComments), evMap(fd.Token.Start), evStr("function "), evChild(fd.Name), evRune('('))
 //@   loop 1 each [syntax] traceSeq(evOpt(i > 0, evRune(',')), evChild(fd.Parameters[i]))
 //@   ensures [syntax] traceSeq(evRune(')'), evChild(fd.Body))
@@ -366,7 +402,7 @@ func slotPrecedence(e Expression) int     { return 0 }
 //@   props C01 C03 C06 C08 C15 C14
 //@   use cwFrame writeTo
 //@   assumes [wf] forall(0, len(bs.Statements), func(k int) bool { return !isNil(bs.Statements[k]) })
-//@   loop 1 invariant [frame] cwInv(cw) && J(cw) && cw.IndentLevel == ite(cw.PrettyPrint, atEntry(cw.IndentLevel), old(cw.IndentLevel)) && implies(cw.PrettyPrint, cw.IndentLevel == old(cw.IndentLevel)+1)
+//@   loop 1 invariant [frame] cwInv(cw) && J(cw) && NoFusion(cw) && cw.IndentLevel == ite(cw.PrettyPrint, atEntry(cw.IndentLevel), old(cw.IndentLevel)) && implies(cw.PrettyPrint, cw.IndentLevel == old(cw.IndentLevel)+1)
 //@   loop 1 before [syntax] traceSeq(evLC(bs.Token.LeadingComments), evMap(bs.Token.Start), evRune('{'))
 //@   loop 1 each [syntax] traceSeq(evNode(bs.Statements[i]))
 //@   ensures [syntax] traceSeq(evLC(bs.RBrace.LeadingComments), evRune('}'))
@@ -462,7 +498,7 @@ func slotPrecedence(e Expression) int     { return 0 }
 //@   props C01 C03 C06 C08 C15 C14
 //@   use cwFrame writeTo
 //@   assumes [wf] !isNil(ce.Function) && forall(0, len(ce.Arguments), func(k int) bool { return !isNil(ce.Arguments[k]) })
-//@   loop 1 invariant [frame] cwInv(cw) && J(cw) && implies(cw.PrettyPrint, cw.IndentLevel == old(cw.IndentLevel)+1) && implies(!cw.PrettyPrint, cw.IndentLevel == old(cw.IndentLevel))
+//@   loop 1 invariant [frame] cwInv(cw) && J(cw) && NoFusion(cw) && implies(cw.PrettyPrint, cw.IndentLevel == old(cw.IndentLevel)+1) && implies(!cw.PrettyPrint, cw.IndentLevel == old(cw.IndentLevel))
 //@   loop 1 before [syntax] traceSeq(evNode(ce.Function), evLC(ce.Token.LeadingComments), evMap(ce.Token.Start), evRune('('))
 //@   loop 1 each [syntax] traceSeq(evOpt(i > 0, evRune(',')), evNode(ce.Arguments[i]))
 //@   ensures [syntax] traceSeq(evRune(')'))
@@ -489,7 +525,7 @@ func slotPrecedence(e Expression) int     { return 0 }
 //@   props C01 C03 C06 C08 C15 C14
 //@   use cwFrame writeTo
 //@   assumes [wf] fe.Body != nil && forall(0, len(fe.Parameters), func(k int) bool { return fe.Parameters[k] != nil })
-//@   loop 1 invariant [frame] cwInv(cw) && J(cw) && cw.IndentLevel == atEntry(cw.IndentLevel)
+//@   loop 1 invariant [frame] cwInv(cw) && J(cw) && NoFusion(cw) && cw.IndentLevel == atEntry(cw.IndentLevel)
 //@   loop 1 before [syntax] traceSeq(evLC(fe.Token.LeadingComments), evMap(fe.Token.Start), evStr("function"), evOpt(fe.Name != nil, evRune(' ')), evOpt(fe.Name != nil, evChild(fe.Name)), evRune('('))
 //@   loop 1 each [syntax] traceSeq(evOpt(i > 0, evRune(',')), evChild(fe.Parameters[i]))
 //@   ensures [syntax] traceSeq(evRune(')'), evChild(fe.Body))
@@ -498,7 +534,7 @@ func slotPrecedence(e Expression) int     { return 0 }
 //@   props C01 C03 C06 C08 C15 C14
 //@   use cwFrame writeTo
 //@   assumes [wf] forall(0, len(al.Elements), func(k int) bool { return !isNil(al.Elements[k]) })
-//@   loop 1 invariant [frame] cwInv(cw) && J(cw) && implies(cw.PrettyPrint, cw.IndentLevel == old(cw.IndentLevel)+1) && implies(!cw.PrettyPrint, cw.IndentLevel == old(cw.IndentLevel))
+//@   loop 1 invariant [frame] cwInv(cw) && J(cw) && NoFusion(cw) && implies(cw.PrettyPrint, cw.IndentLevel == old(cw.IndentLevel)+1) && implies(!cw.PrettyPrint, cw.IndentLevel == old(cw.IndentLevel))
 //@   loop 1 before [syntax] traceSeq(evLC(al.Token.LeadingComments), evMap(al.Token.Start), evRune('['))
 //@   loop 1 each [syntax] traceSeq(evOpt(i > 0, evRune(',')), evNode(al.Elements[i]))
 //@   ensures [syntax] traceSeq(evLC(al.RBracket.LeadingComments), evRune(']'))
@@ -507,7 +543,7 @@ func slotPrecedence(e Expression) int     { return 0 }
 //@   props C01 C03 C06 C08 C15 C14
 //@   use cwFrame writeTo
 //@   assumes [wf] forall(0, len(ol.Properties), func(k int) bool { return !isNil(ol.Properties[k].Key) && !isNil(ol.Properties[k].Value) })
-//@   loop 1 invariant [frame] cwInv(cw) && J(cw) && implies(cw.PrettyPrint, cw.IndentLevel == old(cw.IndentLevel)+1) && implies(!cw.PrettyPrint, cw.IndentLevel == old(cw.IndentLevel))
+//@   loop 1 invariant [frame] cwInv(cw) && J(cw) && NoFusion(cw) && implies(cw.PrettyPrint, cw.IndentLevel == old(cw.IndentLevel)+1) && implies(!cw.PrettyPrint, cw.IndentLevel == old(cw.IndentLevel))
 //@   loop 1 before [syntax] traceSeq(evLC(ol.Token.LeadingComments), evMap(ol.Token.Start), evRune('{'))
 //@   loop 1 each [syntax] traceSeq(evOpt(i > 0, evRune(',')), evNode(ol.Properties[i].Key), evRune(':'), evNode(ol.Properties[i].Value))
 //@   ensures [syntax] traceSeq(evLC(ol.RBrace.LeadingComments), evRune('}'))
